@@ -27,6 +27,15 @@ Proof.
   unfold beta_logkernel_rx, beta_logkernel. cbn [rval]. rewrite !rval_RQ, !Q2R_minus.
   replace (Q2R 1) with 1 by (unfold Q2R; cbn; lra). replace (IZR 1 / IZR 1) with 1 by lra. reflexivity.
 Qed.
+Lemma normal_logp_rx_val mu sg x : rval (normal_logp_rx mu sg x) = normal_logp (rval mu) (rval sg) (rval x).
+Proof.
+  unfold normal_logp_rx, normal_logp. cbn [rval]. replace (IZR (-1) / IZR 2) with (- (1 / 2)) by lra.
+  replace (IZR 1 / IZR 2) with (1 / 2) by lra. replace (IZR 2 / IZR 1) with 2 by lra. cbn [pow]. rewrite Rmult_1_r. reflexivity.
+Qed.
+Lemma xterm_rx_val t x : rval (xterm_rx t x) = xterm_logp t (Q2R x).
+Proof.
+  destruct t as [mu sg|mu sg]; unfold xterm_rx, xterm_logp; cbn [rval]; rewrite normal_logp_rx_val; cbn [rval]; rewrite !rval_RQ; reflexivity.
+Qed.
 (* the certified clip returns the declared sigma *)
 Lemma fcm_sigma_rx_val sK0 P0 maxK P e sg :
   fcm_sigma_rx sK0 P0 maxK P e = Some sg -> rval sg = fcm_sigma (Q2R sK0) (Q2R P0) (Q2R maxK) (Q2R P) (Q2R e).
